@@ -25,7 +25,7 @@ META = {
                    "FIRST_USER_TOKEN exists. Not decided: that all consumers are handed the same grammar instance.",
 }
 
-FUT = "parol_runtime::lexer::FIRST_USER_TOKEN"
+FUT = "parol_runtime::lexer::token::FIRST_USER_TOKEN"
 BEHAVES = "parol::grammar::symbol::TerminalKind::behaves_like"
 SEARCHES = {"std::iter::Iterator::position", "std::iter::Iterator::find", "std::iter::Iterator::rposition",
             "std::iter::Iterator::find_map", "std::iter::Iterator::any"}
